@@ -212,21 +212,49 @@ class Call:
     pass
 
 
+def writable(P, sdef, v):
+    """can the generated Write emit this Go-level value (C02: a union field holding its default is unset)?"""
+    try:
+        C2.expected_struct(P.p, sdef, v)
+        return True
+    except (C2.UnionCount, C2.NilDeref):
+        return False
+
+
 def plan_session(rng, P, cfn, csvc, sfn, ssvc, transport, proto, per_method, tamper=False):
     p = P.p
     calls, reqs = [], []
     for (dfn, dsvc, m) in L.service_methods(p, cfn, csvc):
         for kind in outcome_kinds(rng, m, per_method):
-            spec, desc = gen_outcome(rng, P, m, kind)
+            for _ in range(30):
+                spec, desc = gen_outcome(rng, P, m, kind)
+                if spec is None:
+                    break
+                # outcomes are values of the declared type: something the generated Write can emit
+                if desc[0] == "ret" and desc[1] is not None and m["ret"] is not None and \
+                        not writable(P, ret_sdef(m), {0: desc[1]}):
+                    continue
+                if desc[0] == "exc" and not writable(P, L.lookup(p, desc[1], desc[2])[1], desc[3]):
+                    continue
+                break
+            else:
+                continue
             if spec is None:
                 continue
             c = Call()
             c.m, c.dfn, c.dsvc = m, dfn, dsvc
             c.own = (dfn, dsvc) == (cfn, csvc)
-            c.args = [L.gen_value(rng, p, a["type"]) for a in m["args"]]
-            for i, a in enumerate(m["args"]):
-                if L.head_kind(p, a["type"]) in ("list", "set", "map", "base:binary") and rng.random() < 0.06:
-                    c.args[i] = None
+            for _ in range(30):
+                c.args = [L.gen_value(rng, p, a["type"]) for a in m["args"]]
+                for i, a in enumerate(m["args"]):
+                    if L.head_kind(p, a["type"]) in ("list", "set", "map", "base:binary") and rng.random() < 0.06:
+                        c.args[i] = None
+                c.unwritable = not writable(P, args_sdef(m), {a["id"]: v for a, v in zip(m["args"], c.args)})
+                # arguments the generated Write refuses (rarely kept: the caller must get an error, nothing is sent)
+                if not c.unwritable or rng.random() < 0.1:
+                    break
+            else:
+                continue
             c.desc = desc
             c.tamper = None
             req = {"method": go_name(m), "args": [L.to_wire(p, a["type"], v) for a, v in zip(m["args"], c.args)],
@@ -246,6 +274,47 @@ def plan_session(rng, P, cfn, csvc, sfn, ssvc, transport, proto, per_method, tam
     calls = [calls[i] for i in order]
     reqs = [reqs[i] for i in order]
     req = {"op": "c03_session", "service": svc_key(cfn, csvc), "server": svc_key(sfn, ssvc),
+           "transport": transport, "proto": proto, "calls": reqs}
+    return req, calls
+
+
+def boundary_program(pid):
+    """hand-written: service Echo { string echo(1: string msg), oneway void fire(1: binary blob) } -- used to sweep
+    request and reply sizes across the buffer sizes of the protocols and transports (bufio's 4096, 8192)"""
+    fn = pid + "a"
+
+    def fld(i, name, t):
+        return {"id": i, "name": name, "mod": "default", "type": t, "default": None}
+    methods = [{"name": "echo", "oneway": False, "ret": ["string"], "args": [fld(1, "msg", ["string"])], "throws": []},
+               {"name": "fire", "oneway": True, "ret": None, "args": [fld(1, "blob", ["binary"])], "throws": []}]
+    return {"id": pid, "root": fn, "order": [fn],
+            "files": {fn: {"name": fn, "includes": [], "typedefs": [], "enums": [], "consts": [], "structs": [],
+                           "services": [{"name": "Echo", "extends": None, "methods": methods}], "scopes": [],
+                           "decl_order": "natural"}}}
+
+
+def plan_boundary(rng, P, transport, proto, sizes):
+    p = P.p
+    fn = p["root"]
+    svc = L.find_service(p, fn, "Echo")
+    echo, fire = svc["methods"]
+    calls, reqs = [], []
+    for n in sizes:
+        which = rng.random()
+        c = Call()
+        c.dfn, c.dsvc, c.own, c.tamper, c.unwritable = fn, "Echo", True, None, False
+        if which < 0.45:      # a large request
+            c.m, c.args, c.desc = echo, ["a" * n], ("ret", "ok")
+        elif which < 0.9:     # a large reply
+            c.m, c.args, c.desc = echo, ["q"], ("ret", "b" * n)
+        else:
+            c.m, c.args, c.desc = fire, [b"z" * n], ("ret", None)
+        m = c.m
+        spec = {"kind": "ret", "value": None if m["ret"] is None else L.to_wire(p, m["ret"], c.desc[1])}
+        calls.append(c)
+        reqs.append({"method": go_name(m), "args": [L.to_wire(p, a["type"], v) for a, v in zip(m["args"], c.args)],
+                     "outcome": spec})
+    req = {"op": "c03_session", "service": svc_key(fn, "Echo"), "server": svc_key(fn, "Echo"),
            "transport": transport, "proto": proto, "calls": reqs}
     return req, calls
 
@@ -292,6 +361,8 @@ def expected_client(P, c, server_has):
     """expected client outcome, as a comparable tuple"""
     m = c.m
     wn = wire_name(m).encode()
+    if c.unwritable:
+        return ("refused",)
     if m["oneway"]:
         return ("ret", None)
     if not server_has:
@@ -367,12 +438,9 @@ def run_program(ctx, prog, lab_id, plan, stats, judge_cases, judge_meta):
         lb.remove()
 
 
-def _run_program(ctx, prog, lb, plan, stats, judge_cases, judge_meta):
-    rng = ctx.rng
-    P = Prog(prog, lb)
-    p = prog
-    svcs = [(fn, s["name"]) for fn in p["order"] for s in p["files"][fn]["services"]]
-    sessions = []     # (req, calls, cfn, csvc, sfn, ssvc, transport, proto)
+def plan_program(rng, P, svcs, plan):
+    p = P.p
+    sessions = []
     for (fn, sv) in svcs:
         combos = [(t, pr) for t in TRANSPORTS for pr in PROTOS]
         rng.shuffle(combos)
@@ -397,6 +465,28 @@ def _run_program(ctx, prog, lb, plan, stats, judge_cases, judge_meta):
             t, pr = rng.choice(TRANSPORTS), rng.choice(PROTOS)
             req, calls = plan_session(rng, P, fn, sv, ext[0], ext[1], t, pr, 2)
             sessions.append((req, calls, fn, sv, ext[0], ext[1], t, pr))
+    return sessions
+
+
+def _run_program(ctx, prog, lb, plan, stats, judge_cases, judge_meta):
+    rng = ctx.rng
+    P = Prog(prog, lb)
+    p = prog
+    svcs = [(fn, s["name"]) for fn in p["order"] for s in p["files"][fn]["services"]]
+    sessions = []     # (req, calls, cfn, csvc, sfn, ssvc, transport, proto)
+    if plan.get("boundary"):
+        fn = p["root"]
+        step = plan["boundary"]
+        for t in TRANSPORTS:
+            for pr in PROTOS:
+                k = step if t == "tcp" else step * 5
+                off = rng.randrange(k)
+                sizes = list(range(3900 + off, 4140, k)) + list(range(8000 + off, 8240, k * 2)) + [0, 1, 65536 + off]
+                for i in range(0, len(sizes), 60):
+                    req, calls = plan_boundary(rng, P, t, pr, sizes[i:i + 60])
+                    sessions.append((req, calls, fn, "Echo", fn, "Echo", t, pr))
+    else:
+        sessions = plan_program(rng, P, svcs, plan)
     resps = lb.run([s[0] for s in sessions], timeout=900)
     per_case = collections.OrderedDict()
     for (req, calls, cfn, csvc, sfn, ssvc, transport, proto), resp in zip(sessions, resps):
@@ -421,7 +511,7 @@ def _run_program(ctx, prog, lb, plan, stats, judge_cases, judge_meta):
                 continue
             c.text = bytes.fromhex(o.get("outcome_text", ""))
             wn = wire_name(m)
-            has = wn in served
+            has = wn in served and not c.unwritable
             problems = []
             # --- exactly once, equal arguments
             hl = o.get("handler") or []
@@ -442,16 +532,21 @@ def _run_program(ctx, prog, lb, plan, stats, judge_cases, judge_meta):
             # --- the caller's view
             exp = expected_client(P, c, has)
             got = observed_client(P, c, o["client"])
-            if exp != ("garbled",) and exp != got:
+            if exp == ("refused",):
+                if got[0] not in ("protocol", "error"):
+                    problems.append("arguments the generated Write cannot emit: caller got %s" % (str(got)[:200],))
+                if o.get("replies") or o.get("request"):
+                    problems.append("arguments the generated Write cannot emit, yet something was sent")
+            elif exp != ("garbled",) and exp != got:
                 problems.append("caller got %s, expected %s" % (str(got)[:300], str(exp)[:300]))
             # --- replies
             nrep = len(o.get("replies") or [])
             d = c.desc
             if m["oneway"] and has and d[0] == "ret" and nrep != 0:
                 problems.append("a successful oneway call produced %d reply frame(s)" % nrep)
-            if not m["oneway"] and nrep != 1:
+            if not m["oneway"] and nrep != 1 and not c.unwritable:
                 problems.append("a two-way call produced %d reply frames" % nrep)
-            kind = ("oneway-" if m["oneway"] else "") + ("unknown-method" if not has else
+            kind = ("oneway-" if m["oneway"] else "") + ("refused-args" if c.unwritable else "unknown-method" if not has else
                                                           ("tamper" if c.tamper else d[0]))
             stats["kind/" + kind] += 1
             stats["inherited" if not c.own else "own"] += 1
@@ -463,6 +558,8 @@ def _run_program(ctx, prog, lb, plan, stats, judge_cases, judge_meta):
             # --- judge case
             reqf = bytes.fromhex(o.get("request") or "")
             hdrs = parse_headers(reqf)
+            if c.unwritable and not reqf:
+                hdrs = [[b"_cid", b"c03"], [b"_opid", str(o.get("opid")).encode()], [b"_timeout", b"3000"]]
             if hdrs is None:
                 ctx.violation("C03: request frame not recorded / malformed", rep)
                 continue
@@ -507,7 +604,7 @@ def _run_program(ctx, prog, lb, plan, stats, judge_cases, judge_meta):
             fuel = min(400000, 4 * (len(reqf) + sum(len(x) for x in reps)) + 2000)
             call_tok = [P.sids[(cfn, csvc)], P.sids[(sfn, ssvc)], go_name(m).encode(), REGISTRY[transport], hdrs,
                         tok_args, tok_out, tok_log, tok_cli, nrep,
-                        [reqf[4:]] if binary else [], [reps[0][4:]] if (binary and reps) else [], tam, fuel]
+                        [reqf[4:]] if (binary and reqf) else [], [reps[0][4:]] if (binary and reps) else [], tam, fuel]
             key = (cfn, csvc, sfn, ssvc)
             per_case.setdefault(key, ([], []))
             per_case[key][0].append(call_tok)
@@ -525,7 +622,8 @@ def _run_program(ctx, prog, lb, plan, stats, judge_cases, judge_meta):
 TAGS = {1: "value returned", 2: "declared exception", 4: "undeclared error -> INTERNAL_ERROR",
         8: "TApplicationException passed on", 16: "oneway without reply", 32: "oneway with error reply",
         64: "unknown method", 128: "reply rejected (name/type)", 256: "inherited method",
-        512: "RESPONSE_TOO_LARGE mapping", 1024: "byte-level replay", 2048: "reply not delivered"}
+        512: "RESPONSE_TOO_LARGE mapping", 1024: "byte-level replay", 2048: "reply not delivered",
+        4096: "arguments refused by the generated Write"}
 
 
 def run(ctx, br):
@@ -534,15 +632,19 @@ def run(ctx, br):
     judge_cases, judge_meta = [], []
     tag = "c03_%d" % (ctx.seed % 100000)
     if quick:
-        progs = [("small", {"combos": 5, "per_method": 3}), ("small", {"combos": 5, "per_method": 3}),
-                 ("medium", {"combos": 4, "per_method": 3})]
+        progs = [("boundary", {"boundary": 3}), ("small", {"combos": 6, "per_method": 3}),
+                 ("small", {"combos": 6, "per_method": 3}), ("medium", {"combos": 5, "per_method": 3})]
     else:
-        progs = [(("small", "medium", "large")[i % 3], {"combos": 12, "per_method": 4}) for i in range(24)]
+        progs = [("boundary", {"boundary": 1})] + \
+                [(("small", "medium", "large")[i % 3], {"combos": 12, "per_method": 4}) for i in range(24)]
     sizes = collections.Counter()
     nprog = 0
     for i, (size, plan) in enumerate(progs):
         pid = "%sp%d" % (tag.replace("_", ""), i)
-        prog = L.gen_program(ctx.rng, pid, size, features={"scopes": False, "consts": True})
+        if size == "boundary":
+            prog = boundary_program(pid)
+        else:
+            prog = L.gen_program(ctx.rng, pid, size, features={"scopes": False, "consts": True})
         sizes[size] += 1
         before = len(ctx.violations)
         run_program(ctx, prog, "%s_%d" % (tag, i), plan, stats, judge_cases, judge_meta)
